@@ -54,3 +54,28 @@ Print Assumptions C18_middleware.
 Example C18_example :
   run 1 4 2 (fresh 4 2 0) [0; 0; 0; 3; 4; 4] = [true; true; false; false; true; false] /\ sorted_from 0 [0; 0; 0; 3; 4; 4].
 Proof. vm_compute. repeat split; discriminate. Qed.
+
+From Coq Require Import String ZArith.
+From Echo Require Import Base.GoLite Gen.Src_mw_handlers Mw.HandlersSrc.
+Open Scope Z_scope.
+
+(* ---- the tie to the source by proof: the request handler (innermost closure) of RateLimiterWithConfig, translated
+   statement by statement from middleware/rate_limiter.go on every run (Gen/Src_mw_handlers.v; language Base/GoLite.v).
+   Not skipped and with an identifier: next is called exactly for admitted requests; a refused one goes to c.Error with
+   the deny handler's answer and the middleware returns nil WITHOUT calling next - whatever the deny handler returned *)
+Theorem C18_source_handler_admits : forall (sym : string -> Z) id allow aerr,
+  let '(st', ret) := GoLite.run sym src_rate_limiter_handler_results src_rate_limiter_handler (rl_state 0 id (sym "nil") allow aerr) in
+  called_next st' = negb (allow =? 0) /\
+  (allow = 0 -> ret = [sym "nil"] /\
+                List.last (events st') (""%string, []) = ("c.Error"%string, [sym "config.DenyHandler(c,identifier,err)"])) /\
+  (allow <> 0 -> ret = [sym "result of next"] /\ List.last (names st') ""%string = "next"%string).
+Proof. exact src_rate_limiter_handler_admits. Qed.
+Print Assumptions C18_source_handler_admits.
+
+(* a failing identifier extractor never reaches the store nor the handler *)
+Theorem C18_source_handler_extractor_error : forall (sym : string -> Z) id eerr allow aerr, eerr <> sym "nil" ->
+  let '(st', ret) := GoLite.run sym src_rate_limiter_handler_results src_rate_limiter_handler (rl_state 0 id eerr allow aerr) in
+  called_next st' = false /\ ret = [sym "nil"] /\ existsb (String.eqb "config.Store.Allow") (names st') = false.
+Proof. exact src_rate_limiter_handler_extractor_error. Qed.
+Print Assumptions C18_source_handler_extractor_error.
+
